@@ -279,7 +279,11 @@ func (sf *IteratorDatastore) ReadStartingWithUser(
 
 	// The producer function is called to create a new shared iterator when it is first accessed.
 	newStorageItem.producer = func() (*sharedIterator, error) {
-		it, err := sf.RelationshipTupleReader.ReadStartingWithUser(ctx, store, filter, options)
+		// The iterator is shared with other requests: it must not be bound to the context of the request
+		// that happens to create it. Otherwise that request's cancellation or deadline (or, with SQL
+		// backends, simply its completion) fails the creation or the later reads of every other request
+		// sharing the iterator, and resolvers that treat a cancelled read as end of data answer wrongly.
+		it, err := sf.RelationshipTupleReader.ReadStartingWithUser(context.WithoutCancel(ctx), store, filter, options)
 		if err != nil {
 			return nil, err
 		}
@@ -360,7 +364,11 @@ func (sf *IteratorDatastore) ReadUsersetTuples(
 
 	// The producer function is called to create a new shared iterator when it is first accessed.
 	newStorageItem.producer = func() (*sharedIterator, error) {
-		it, err := sf.RelationshipTupleReader.ReadUsersetTuples(ctx, store, filter, options)
+		// The iterator is shared with other requests: it must not be bound to the context of the request
+		// that happens to create it. Otherwise that request's cancellation or deadline (or, with SQL
+		// backends, simply its completion) fails the creation or the later reads of every other request
+		// sharing the iterator, and resolvers that treat a cancelled read as end of data answer wrongly.
+		it, err := sf.RelationshipTupleReader.ReadUsersetTuples(context.WithoutCancel(ctx), store, filter, options)
 		if err != nil {
 			return nil, err
 		}
@@ -439,7 +447,11 @@ func (sf *IteratorDatastore) Read(
 
 	// The producer function is called to create a new shared iterator when it is first accessed.
 	newStorageItem.producer = func() (*sharedIterator, error) {
-		it, err := sf.RelationshipTupleReader.Read(ctx, store, filter, options)
+		// The iterator is shared with other requests: it must not be bound to the context of the request
+		// that happens to create it. Otherwise that request's cancellation or deadline (or, with SQL
+		// backends, simply its completion) fails the creation or the later reads of every other request
+		// sharing the iterator, and resolvers that treat a cancelled read as end of data answer wrongly.
+		it, err := sf.RelationshipTupleReader.Read(context.WithoutCancel(ctx), store, filter, options)
 		if err != nil {
 			return nil, err
 		}
